@@ -18,6 +18,7 @@ SPEC = {
         "borrowed descriptors (an extra strong reference is forgotten so fds 0-2 are never closed), and the "
         "who-may-call census showing that dup2/chdir/setuid/... are reachable only from the fork-child region, "
         "this decides the wiring for every configuration — the quantifier the tests sample ~10 of."
+        " Also: a user-supplied File/Rc<File> becomes a child end only after set_inheritable(.., true) succeeded (needed when its number already equals the target); PopenConfig::default() leaves all three streams inherited. Thorough tier, windows: same table; CreateProcess inherits handles, gets the three child ends in order with STARTF_USESTDHANDLES and no creation flags; pipes are created inheritable."
     ),
     "not_decided": "kernel semantics of dup2/pipe; descriptor-number collisions when the parent itself runs with 0/1/2 closed.",
     "trusted_base": ["rustc MIR", "POSIX pipe(2): fds[0] is the read end, fds[1] the write end", "POSIX dup2(2)",
